@@ -165,7 +165,7 @@ func main() {
 	wit.EnsureMetrics(nil)
 	run := ev.Start("C14", "exploration")
 	defer run.Finish()
-	run.Rule(fmt.Sprintf("unit = one omniwitness.Main service started from a generated configuration of 2-4 stub logs (one SumDB-layout log and tlog-tiles logs, served from generated trees through an in-memory transport) with polling on; each log follows its own growth schedule (size 1, repeated sizes, 255/256/257 and, thorough, 65535/65536/65537); after every publication the served GET checkpoint must equal the published text with valid log and witness signatures before the stub has answered %d further checkpoint fetches (bounded progress in logical steps; a 90 s wall-clock watchdog is inconclusive); services on SQLite files are restarted between steps (served checkpoint identical across the restart); finally a log switches to a history that does not extend the witnessed one and the served checkpoint must stay on the witnessed text for the next 6 poll cycles. evaluations = growth steps + restarts + fork observations judged; nontrivial = distinct (feeder type, storage, size class, event)", K+1))
+	run.Rule(fmt.Sprintf("unit = one omniwitness.Main service started from a generated configuration of 2-4 stub logs (one SumDB-layout log and tlog-tiles logs, served from generated trees through an in-memory transport) with polling on; each log follows its own growth schedule (size 1, repeated sizes, 255/256/257 and, thorough, 65535/65536/65537); after every publication the served GET checkpoint must equal the published text with valid log and witness signatures before the stub has answered %d further checkpoint fetches (bounded progress in logical steps; a 90 s wall-clock watchdog is inconclusive); services on SQLite files are restarted between steps (served checkpoint text identical and validly cosigned across the restart); finally a log switches to a history that does not extend the witnessed one and the served checkpoint must stay on the witnessed text for the next 6 poll cycles. evaluations = growth steps + restarts + fork observations judged; nontrivial = distinct (feeder type, storage, size class, event)", K+1))
 	run.Assume("feeders poll sequentially per log: when fetch K+1 after a publication has been answered, K full feed cycles have completed", "size-0 first checkpoints are avoided (known finding F2)", "Rekor, Pixel and serverless feeders are not served from generated trees (C17/C19 cover their start-up and hostile responses)")
 	run.Floor("growth_steps", 60)
 	run.Floor("restarts", 2)
@@ -350,7 +350,13 @@ func oneService(run *ev.Run, unit int64, r *rand.Rand, dir string) {
 			}
 			for _, l := range s.logs {
 				code, after := s.served(l.id)
-				if code != 200 || !bytes.Equal(after, before[l.id]) {
+				// compared on the checkpoint text (+ validity): a refresh that was in flight when the
+				// service stopped may legitimately have renewed the timestamped signature
+				bt := ""
+				if n, err := refnote.Parse(before[l.id]); err == nil {
+					bt = n.Text
+				}
+				if code != 200 || bt == "" || !s.matches(l, after, bt) {
 					fail("served_checkpoint_changed_across_restart", fmt.Sprintf("%s: status %d after restart, bytes equal=%v", l.host, code, bytes.Equal(after, before[l.id])), map[string]any{"before": string(before[l.id]), "after": string(after)})
 				}
 			}
